@@ -69,6 +69,7 @@ func zzReset(fx *zzFixture) {
 	zzOutMap = map[string]string{}
 	zzLogLines = nil
 	zzDocs = nil
+	zzDocSlices = map[*interface{}]bool{}
 }
 
 func zzEngine() bool { return false }
@@ -170,7 +171,42 @@ func zzDoc(name string) interface{} {
 	}
 	d := zzBuild(&t)
 	zzDocs = append(zzDocs, zzDocSnap{live: d, snap: zzCopy(d)})
+	zzNoteDocSlices(d)
 	return d
+}
+
+// zzDocSlices: the arrays that belong to input documents (by the address of
+// their first element); zzSnap leaves them shared, as the engine does.
+var zzDocSlices = map[*interface{}]bool{}
+
+func zzNoteDocSlices(v interface{}) {
+	switch x := v.(type) {
+	case map[string]interface{}:
+		for _, c := range x {
+			zzNoteDocSlices(c)
+		}
+	case []interface{}:
+		if len(x) > 0 {
+			zzDocSlices[&x[0]] = true
+		}
+		for _, c := range x {
+			zzNoteDocSlices(c)
+		}
+	}
+}
+
+// zzSnap copies, recursively, every slice in v that is not an array of an
+// input document.
+func zzSnap(v interface{}) interface{} {
+	x, ok := v.([]interface{})
+	if !ok || len(x) == 0 || zzDocSlices[&x[0]] {
+		return v
+	}
+	cp := make([]interface{}, len(x))
+	for i := range x {
+		cp[i] = zzSnap(x[i])
+	}
+	return cp
 }
 
 // zzJSON decodes a JSON text parameter (param "usenumber"=="1" selects json.Number).
@@ -184,6 +220,7 @@ func zzJSON(name string) interface{} {
 		panic("zzJSON: " + err.Error())
 	}
 	zzDocs = append(zzDocs, zzDocSnap{live: v, snap: zzCopy(v)})
+	zzNoteDocSlices(v)
 	return v
 }
 
